@@ -222,6 +222,30 @@ static void op_closure(const McArg *a) {
     }
     for (int cr = res; cr <= 15; cr++)
         if (CALL(cellToCenterChild(h, cr, &o)) == 0) chk_out("cellToCenterChild", h, o, cr);
+    // boundary and out-of-range scalar arguments: whatever a call returns with E_SUCCESS must still be a valid cell
+    for (int cr = res; cr <= 15; cr += (cr < res + 3 ? 1 : 4)) {
+        int64_t n = 0, full = 1;
+        if (CALL(cellToChildrenSize(h, cr, &n))) continue;
+        for (int d = res; d < cr; d++) full *= 7;
+        int64_t ps[] = {0, 1, n - 2, n - 1, n, n + 1, (n + full) / 2, full - 2, full - 1, full, full + 1, -1, INT64_MAX, INT64_MIN};
+        for (unsigned q = 0; q < sizeof ps / sizeof *ps; q++)
+            if (CALL(childPosToCell(ps[q], h, cr, &o)) == 0) chk_out("childPosToCell(boundary position)", h, o, cr);
+    }
+    for (int p = res + 1; p <= 16; p += 3)
+        if (CALL(cellToParent(h, p, &o)) == 0) chk_out("cellToParent(finer)", h, o, -1);
+    for (int cr = -1; cr < res; cr += 2)
+        if (CALL(cellToCenterChild(h, cr, &o)) == 0) chk_out("cellToCenterChild(coarser)", h, o, -1);
+    {
+        static const int ext[] = {INT_MIN, INT_MIN + 1, -100000, -1000, 1000, 100000, INT_MAX / 3, INT_MAX - 1, INT_MAX};
+        CoordIJ ij;
+        for (unsigned q = 0; q < sizeof ext / sizeof *ext; q++)
+            for (unsigned w = 0; w < sizeof ext / sizeof *ext; w += 2) {
+                ij.i = ext[q], ij.j = ext[w];
+                if (CALL(localIjToCell(h, &ij, 0, &o)) == 0) chk_out("localIjToCell(extreme ij)", h, o, res);
+            }
+    }
+    if (CALL(getDirectedEdgeOrigin(h, &o)) == 0) chk_out("getDirectedEdgeOrigin(cell)", h, o, -1);
+    if (CALL(getDirectedEdgeDestination(h, &o)) == 0) chk_out("getDirectedEdgeDestination(cell)", h, o, -1);
     for (int k = 0; k <= 2; k++) {
         int64_t n = 3 * k * (k + 1) + 1;
         memset(buf, 0, sizeof buf);
